@@ -6,5 +6,7 @@ import (
 	_ "verif/htlab/internal/props/c02"
 	_ "verif/htlab/internal/props/c06"
 	_ "verif/htlab/internal/props/c08"
+	_ "verif/htlab/internal/props/c10"
+	_ "verif/htlab/internal/props/c17"
 	_ "verif/htlab/internal/props/c19"
 )
